@@ -6,6 +6,7 @@ import (
 	"runtime"
 	"strconv"
 	"strings"
+	"unsafe"
 
 	"github.com/creachadair/mds/slice"
 )
@@ -18,6 +19,12 @@ import (
 // identity), and by appending a sentinel to it and printing base afterwards
 // (an unclipped subslice overwrites its neighbour).
 
+// `partitiont|rotatet|chunkst|batchest <ty> <arg>` make the same call at another ELEMENT type: the backing array
+// is converted cell by cell (ty = str: strings, see c11strEnc; zs / za: the zero-size types struct{} / [0]int), the
+// argument slice is the same window of the converted array, the call and the sentinel appends happen there, the
+// observation is printed with the cells converted back, and the converted-back array replaces `base`.  A zero-size
+// type keeps no values (every cell reads back as 0) and has no addresses to tell cells apart: positions are printed
+// as -3 (-1 without capacity, as usual); the driver does the same to the model's observation.
 type c17 struct {
 	base []int
 	vs   []int
@@ -84,11 +91,115 @@ func c17csv(t string) []int {
 	return out
 }
 
+// c17t is the state converted to element type T.
+type c17t[T any] struct {
+	base, vs []T
+	enc      func(int) T
+	dec      func(T) int
+}
+
+func (t *c17t[T]) off(s []T) int {
+	if cap(s) == 0 {
+		return -1
+	}
+	var z T
+	if unsafe.Sizeof(z) == 0 {
+		return -3
+	}
+	p := &s[:1][0]
+	for i := range t.base {
+		if &t.base[i] == p {
+			return i
+		}
+	}
+	return -2
+}
+
+func (t *c17t[T]) ints(s []T) string { return fmtInts(c11dec(s, t.dec)) }
+
+func (t *c17t[T]) sub(s []T) string {
+	return fmt.Sprintf("res=%s len=%d cap=%d off=%d", t.ints(s), len(s), cap(s), t.off(s))
+}
+
+func (t *c17t[T]) subs(ss [][]T) string {
+	var lens, caps, offs []int
+	var cat []T
+	for _, s := range ss {
+		lens = append(lens, len(s))
+		caps = append(caps, cap(s))
+		offs = append(offs, t.off(s))
+		cat = append(cat, s...)
+	}
+	return fmt.Sprintf("n=%d lens=%s caps=%s offs=%s cat=%s", len(ss), fmtInts(lens), fmtInts(caps), fmtInts(offs), t.ints(cat))
+}
+
+// c17typed runs `op arg` at element type T (see the comment of c17).
+func c17typed[T any](r *c17, op, arg string, enc func(int) T, dec func(T) int) string {
+	t := &c17t[T]{enc: enc, dec: dec}
+	if r.base != nil {
+		t.base = c11enc(r.base, enc)
+	}
+	switch {
+	case r.vs == nil:
+	case cap(r.vs) == 0:
+		t.vs = t.base[:0:0]
+	default:
+		off := r.off(r.vs)
+		t.vs = t.base[off : off+len(r.vs) : off+cap(r.vs)]
+	}
+	defer func() {
+		for i, v := range t.base {
+			r.base[i] = dec(v)
+		}
+	}()
+	return r.call(func() string {
+		switch op {
+		case "partitiont":
+			mask, _ := strconv.ParseUint(arg, 10, 64)
+			res := slice.Partition(t.vs, func(v T) bool { return mask>>(uint(dec(v))%32)&1 == 1 })
+			o := t.sub(res)
+			vs := t.ints(t.vs)
+			_ = append(res, enc(99))
+			return fmt.Sprintf("%s vs=%s app=%s", o, vs, t.ints(t.base))
+		case "rotatet":
+			slice.Rotate(t.vs, atoi(arg))
+			return fmt.Sprintf("ok vs=%s base=%s", t.ints(t.vs), t.ints(t.base))
+		case "chunkst", "batchest":
+			var ss [][]T
+			if op == "chunkst" {
+				ss = slice.Chunks(t.vs, atoi(arg))
+			} else {
+				ss = slice.Batches(t.vs, atoi(arg))
+			}
+			o := t.subs(ss)
+			for i, s := range ss {
+				_ = append(s, enc(-1-i))
+			}
+			return fmt.Sprintf("%s app=%s", o, t.ints(t.base))
+		}
+		return "bad-op"
+	})
+}
+
 func (r *c17) Exec(op []string) string {
 	if op[0] != "reset" && op[0] != "stripe" {
 		r.noteLen(op[0])
 	}
 	switch op[0] {
+	case "partitiont", "rotatet", "chunkst", "batchest":
+		if len(op) != 3 {
+			return "bad-op"
+		}
+		r.st.Note(op[0] + "-" + op[1])
+		switch op[1] {
+		case "str":
+			return c17typed(r, op[0], op[2], c11strEnc, c11strDec)
+		case "zs":
+			return c17typed(r, op[0], op[2], func(int) struct{} { return struct{}{} }, func(struct{}) int { return 0 })
+		case "za":
+			return c17typed(r, op[0], op[2], func(int) [0]int { return [0]int{} }, func([0]int) int { return 0 })
+		}
+		return "bad-op"
 	case "reset":
 		off, n, cp := atoi(op[1]), atoi(op[2]), atoi(op[3])
 		r.base = make([]int, len(op)-4)
@@ -356,6 +467,16 @@ func c17rand(g *G, n, max int) []int {
 	return vs
 }
 
+// c17types are the element types of the typed calls; c17typedEach emits, as fixed cases dealt to the shards, the
+// call `op arg` after the reset line rs at type str and at one of the zero-size types (in turn by i), the second
+// one after the plain call (the typed call then works on what the plain one left).
+var c17types = []string{"str", "zs", "za"}
+
+func c17typedEach(g *G, i int, rs, op, arg string) {
+	g.Each([]string{rs, fmt.Sprintf("%st str %s", op, arg)})
+	g.Each([]string{rs, fmt.Sprintf("%s %s", op, arg), fmt.Sprintf("%st %s %s", op, c17types[1+i%2], arg)})
+}
+
 func genC17Partition(g *G) {
 	// exhaustive: every slice length ≤ 10 (12 thorough) with every keep/drop pattern (g.Each: the exhaustive
 	// parts of the C17 generators are dealt to the generator shards, not repeated in each)
@@ -363,15 +484,20 @@ func genC17Partition(g *G) {
 	for n := 0; n <= maxN; n++ {
 		for mask := 0; mask < 1<<n; mask++ {
 			g.Each([]string{c17reset(c17iota(n), mask%3, (mask/3)%3), fmt.Sprintf("partition %d", mask)})
+			if n <= 5 {
+				c17typedEach(g, mask, c17reset(c17iota(n), mask%3, (mask/3)%3), "partition", fmt.Sprint(mask))
+			}
 		}
 	}
 	// the empty slice in every layout
 	for off := 0; off < 2; off++ {
 		for spare := 0; spare < 3; spare++ {
 			g.Each([]string{c17reset(nil, off, spare), "partition 5"})
+			c17typedEach(g, off+spare, c17reset(nil, off, spare), "partition", "5")
 		}
 	}
 	g.Each([]string{c17nil, "partition 5", "partition 0"})
+	g.Each([]string{c17nil, "partitiont str 5", "partitiont zs 5", "partitiont za 0"})
 	// random: duplicates, longer slices, repeated partitions of the rearranged slice
 	for c := 0; c < g.Scale(600, 20000); c++ {
 		n := g.Intn(g.Scale(40, 200))
@@ -387,6 +513,9 @@ func genC17Partition(g *G) {
 				mask &= g.R.Uint32() // sparse
 			}
 			ops = append(ops, fmt.Sprintf("partition %d", mask))
+			if k == 0 && c%2 == 0 {
+				ops = append(ops, fmt.Sprintf("partitiont %s %d", c17types[c/2%3], g.R.Uint32()))
+			}
 		}
 		g.Case(ops)
 	}
@@ -398,6 +527,9 @@ func genC17Rotate(g *G) {
 	for n := 0; n <= maxN; n++ {
 		for k := -n - 1; k <= n+1; k++ {
 			g.Each([]string{c17reset(c17iota(n), (n+k+1)%2, (n+k+1)%3), fmt.Sprintf("rotate %d", k)})
+			if n <= 7 {
+				c17typedEach(g, n+k+1, c17reset(c17iota(n), (n+k+1)%2, (n+k+1)%3), "rotate", fmt.Sprint(k))
+			}
 		}
 		// far out of range and extreme offsets (Rotate panics unless -n ≤ k ≤ n), one call per case
 		for j, k := range c17far(n) {
@@ -406,6 +538,7 @@ func genC17Rotate(g *G) {
 	}
 	for _, k := range []int{0, 1, -1, math.MaxInt64, math.MinInt64} {
 		g.Each([]string{c17nil, fmt.Sprintf("rotate %d", k)})
+		g.Each([]string{c17nil, fmt.Sprintf("rotatet str %d", k), fmt.Sprintf("rotatet zs %d", k)})
 	}
 	for c := 0; c < g.Scale(400, 10000); c++ {
 		n := g.Intn(g.Scale(64, 300))
@@ -421,6 +554,9 @@ func genC17Rotate(g *G) {
 				}
 			}
 			ops = append(ops, fmt.Sprintf("rotate %d", kk))
+			if k == 0 && c%2 == 0 {
+				ops = append(ops, fmt.Sprintf("rotatet %s %d", c17types[c/2%3], -kk))
+			}
 		}
 		g.Case(ops)
 	}
@@ -435,6 +571,9 @@ func genC17Sub(op string) func(g *G) {
 				for _, off := range []int{0, 2} {
 					for n := -2; n <= l+3; n++ {
 						g.Each([]string{c17reset(c17iota(l), off, spare), fmt.Sprintf("%s %d", op, n)})
+						if l <= 6 {
+							c17typedEach(g, l+n, c17reset(c17iota(l), off, spare), op, fmt.Sprint(n))
+						}
 					}
 					if l <= 12 {
 						for _, n := range c17far(l) {
@@ -446,12 +585,16 @@ func genC17Sub(op string) func(g *G) {
 		}
 		for _, n := range []int{-1, 0, 1, 2, math.MaxInt64, math.MinInt64} {
 			g.Each([]string{c17nil, fmt.Sprintf("%s %d", op, n)})
+			g.Each([]string{c17nil, fmt.Sprintf("%st str %d", op, n), fmt.Sprintf("%st za %d", op, n)})
 		}
 		for c := 0; c < g.Scale(300, 5000); c++ {
 			l := g.Intn(g.Scale(60, 400))
 			ops := []string{c17reset(c17rand(g, l, 100), g.Intn(3), g.Intn(5))}
 			for k := 0; k <= g.Intn(2); k++ {
 				ops = append(ops, fmt.Sprintf("%s %d", op, g.Intn(l+4)-1))
+				if k == 0 && c%2 == 0 {
+					ops = append(ops, fmt.Sprintf("%st %s %d", op, c17types[c/2%3], g.Intn(l+4)-1))
+				}
 			}
 			g.Case(ops)
 		}
